@@ -4,7 +4,6 @@ from __future__ import annotations
 import re
 from collections.abc import Iterable, Sequence
 from dataclasses import dataclass
-from re import Pattern
 
 __all__ = ['ListEntry', 'ListTree']
 
@@ -84,12 +83,11 @@ class ListTree:
 
     _wildcards = re.compile(r'([\*\%])')
 
-    __slots__ = ['_delimiter', '_no_delimiter', '_root', '_marked']
+    __slots__ = ['_delimiter', '_root', '_marked']
 
     def __init__(self, delimiter: str) -> None:
         super().__init__()
         self._delimiter = delimiter
-        self._no_delimiter = '[^' + re.escape(delimiter) + ']*?'
         self._root = _TreeNode('')
         self._marked: dict[str, bool] = {}
 
@@ -191,18 +189,37 @@ class ListTree:
         for entry in self._iter(self._root, ''):
             yield entry
 
-    def _get_pattern(self, query: str) -> tuple[Pattern[str], Pattern[str]]:
-        pattern_parts: list[str] = []
-        for part in self._wildcards.split(query):
+    def _matches(self, parts: Sequence[str], name: str, *,
+                 ignore_case: bool = False) -> bool:
+        # Tracks the set of positions in the name that the pattern parts seen
+        # so far can end at. A regular expression built from many wildcards
+        # backtracks for a time exponential in their number.
+        if ignore_case:
+            name = name.lower()
+        delimiter = self._delimiter
+        length = len(name)
+        ends = {0}
+        for part in parts:
             if part == '*':
-                pattern_parts.append('.*?')
+                ends = set(range(min(ends), length + 1))
             elif part == '%':
-                pattern_parts.append(self._no_delimiter)
+                reached: set[int] = set()
+                for start in sorted(ends):
+                    if start in reached:
+                        continue
+                    stop = name.find(delimiter, start)
+                    if stop < 0:
+                        stop = length
+                    reached.update(range(start, stop + 1))
+                ends = reached
             else:
-                pattern_parts.append(re.escape(part))
-        pattern = '^' + ''.join(pattern_parts) + r'\Z'
-        return (re.compile(pattern, re.DOTALL),
-                re.compile(pattern, re.DOTALL | re.IGNORECASE))
+                if ignore_case:
+                    part = part.lower()
+                ends = {start + len(part) for start in ends
+                        if name.startswith(part, start)}
+            if not ends:
+                return False
+        return length in ends
 
     def list_matching(self, ref_name: str, filter_: str) \
             -> Iterable[ListEntry]:
@@ -213,13 +230,14 @@ class ListTree:
             filter_: Mailbox name with possible wildcards.
 
         """
-        canonical, canonical_i = self._get_pattern(ref_name + filter_)
+        parts = [part for part in self._wildcards.split(ref_name + filter_)
+                 if part]
         for entry in self.list():
             if not entry.exists and entry.name != 'INBOX' \
                     and entry.name.upper() == 'INBOX':
                 continue  # a spelling of INBOX, which is listed by itself
             elif entry.name == 'INBOX':
-                if canonical_i.match('INBOX'):
+                if self._matches(parts, 'INBOX', ignore_case=True):
                     yield entry
-            elif canonical.match(entry.name):
+            elif self._matches(parts, entry.name):
                 yield entry
